@@ -650,7 +650,15 @@ class Condition(ConditionLike):
                     if not result_i:
                         callable_false_i = True
 
-                except (TypeError, AttributeError):
+                except (
+                    TypeError,
+                    AttributeError,
+                    ValueError,
+                    ArithmeticError,
+                    LookupError,
+                ):
+                    # comparison is not defined for this datum (e.g. modulo by zero,
+                    # `%` applied to a string datum):
                     callable_error_i = True
 
             pre_processor_error.append(pre_processor_error_i)
